@@ -20,10 +20,11 @@ def envW : Env where
   metaOf := fun _ => 1
 
 theorem envW_wf : WfEnv envW := by
-  refine ⟨?_, ?_, ?_⟩
+  refine ⟨?_, ?_, ?_, ?_⟩
   · intro c; simp [envW]
   · intro c; simp [envW]
   · decide
+  · intro c d _ h; simp [envW] at h
 
 
 /-! ### regions: negation witnesses on the class table `envC`
@@ -44,10 +45,11 @@ def envC : Env where
   metaOf := fun _ => 1
 
 theorem envC_wf : WfEnv envC := by
-  refine ⟨?_, ?_, ?_⟩
+  refine ⟨?_, ?_, ?_, ?_⟩
   · intro c; simp [envC]
   · intro c; simp [envC]
   · decide
+  · intro c d _ h; simp [envC] at h
 
 
 /-- class table for the iterator region: as `envW`, with 12 = collections.abc.Iterable (origin of `Iterable[..]`) and the one-shot
@@ -64,11 +66,33 @@ def envR : Env := { envW with
   name := fun c => c
   mroNames := fun c => if c == 0 then [0] else if c == 9 || c == 10 then [c, 5, 0] else [c, 0] }
 
+theorem envI_wf : WfEnv envI := by
+  refine ⟨?_, ?_, ?_, ?_⟩
+  · intro c; simp [envI, envW]
+  · intro c; simp [envI, envW]
+  · decide
+  · intro c d _ h; simp [envI, envW] at h
+
+/-- `envW` with 9 = NT1 and 10 = NT2 being NamedTuple classes (tuple subclasses with `_fields`), and 13 = a subclass of NT1 -/
+def envN : Env := { envW with
+  sub := fun a b => a == b || b == 0 || ((a == 9 || a == 10 || a == 13) && b == 5) || (a == 13 && b == 9)
+  isNT := fun c => c == 9 || c == 10 || c == 13 }
+theorem envN_wf : WfEnv envN := by
+  refine ⟨?_, ?_, ?_, ?_⟩
+  · intro c; simp [envN, envW]
+  · intro c; simp [envN, envW]
+  · decide
+  · intro c d hs hd
+    simp only [envN, envW, Bool.or_eq_true, Bool.and_eq_true, beq_iff_eq] at hs hd ⊢
+    rcases hd with (rfl | rfl) | rfl
+    all_goals first | (simp_all; done) | (simp at hs; omega) | (simp at hs; rcases hs with h | h <;> simp_all)
+
 theorem envR_wf : WfEnv envR := by
-  refine ⟨?_, ?_, ?_⟩
+  refine ⟨?_, ?_, ?_, ?_⟩
   · intro c; simp [envR, envW]
   · intro c; simp [envR, envW]
   · decide
+  · intro c d _ h; simp [envR, envW] at h
 
 
 end PedVerif.Checker
